@@ -189,7 +189,7 @@ def detailed(drv, bat, culprits):
             calls = bat.of(c)
             src = PRELUDE + "local s, p = %s, %s\n" % (lua_str(text(c[S_])), lua_str(text(c[P_]))) + "".join(
                 "emit(%d, %s)\n" % (j, call_expr(calls[j])) for j in range(start, len(calls)))
-            inputs.append({"id": i, "src": src, "timeout": 10000})
+            inputs.append({"id": i, "src": src, "timeout": 30000})
         outs = run_lua_cases(drv, inputs, nproc=NPROC, env=GOENV2)
         nxt = []
         for i, (c, start) in enumerate(todo):
@@ -199,7 +199,7 @@ def detailed(drv, bat, culprits):
             if o.get("timeout"):
                 # the events of a hung chunk are lost: isolate the first call, then go on with the others
                 single = run_lua_cases(drv, [{"id": 0, "src": PRELUDE + "local s, p = %s, %s\nemit(%d, %s)\n" % (
-                    lua_str(text(c[S_])), lua_str(text(c[P_])), start, call_expr(bat.of(c)[start])), "timeout": 10000}], nproc=1)[0]
+                    lua_str(text(c[S_])), lua_str(text(c[P_])), start, call_expr(bat.of(c)[start])), "timeout": 30000}], nproc=1)[0]
                 if single.get("timeout"):
                     r[start] = "HANG"
                 elif single.get("panic") or single.get("crash"):
